@@ -27,6 +27,23 @@ for tc in ET.parse(out).getroot().iter("testcase"):
         passed.add("%s::%s" % (tc.get("classname"), tc.get("name")))
 os.unlink(out)
 missing = sorted(stable - passed)
+# timing-sensitive tests (executor monitor threads, CSE timing) fail sporadically on a loaded machine:
+# re-run each missing test alone before believing it
+still = []
+for m in missing[:25]:
+    mod, name = m.split("::", 1)
+    path = mod.replace(".", "/") + ".py"
+    ok = False
+    for attempt in range(2):
+        rr = subprocess.run(["/venv/bin/python", "-m", "pytest", "-q", "-p", "no:cacheprovider", "--timeout=900",
+                             "%s::%s" % (path, name)], cwd=d, env=env, stdout=subprocess.PIPE, stderr=subprocess.STDOUT, text=True)
+        if rr.returncode == 0:
+            ok = True
+            break
+    print("  RERUN %s -> %s" % (m, "passes alone" if ok else "STILL FAILS"))
+    if not ok:
+        still.append(m)
+missing = still + missing[25:]
 print(r.stdout[-600:])
 print("stable_pass=%d passed_now=%d missing_from_stable=%d" % (len(stable), len(passed), len(missing)))
 for m in missing[:40]:
